@@ -54,6 +54,9 @@ import JanetModel.Compile.SeqErrTailIf
 import JanetModel.Compile.SeqThunk
 import JanetModel.Compile.SeqFnParams
 import JanetModel.Compile.SeqBlockLoops
+import JanetModel.Compile.SeqHintIf
+import JanetModel.Compile.SeqSet
+import JanetModel.Compile.SeqBoxInj
 namespace JanetModel.Props.C02
 open JanetModel.Emit
 
@@ -685,6 +688,45 @@ example : CondOK (.form [.sym "array/pop", .sym "a"] {}) ∧
   · exact .call "emit" _ {} (by decide) (by decide) (Or.inr rfl) (fun a ha => by
       simp only [List.mem_cons, List.not_mem_nil, or_false] at ha; subst ha; exact .lit _ trivial)
 
+/-- **`set`**: the statement `(set x e)` with `e` a form of the fragment `TF G b` and `x` a mutable local.  `janetc_varset` resolves the
+    target, compiles the value WITH THE VARIABLE'S SLOT AS HINT, and copies the result slot onto the variable (a no-op, the hinted
+    compile already returned the variable's slot).  Hinted compiles are an induction of their own (`HintAtM`, `tf_hint_correct_b`,
+    Compile/SeqHint*.lean): a literal / symbol / `def` is followed by `janetc_copy` into the hint (`LDK r_x k`, `MOVN r_x r`, nothing
+    for `(set x x)`); a call takes the hint as target — `CALL r_x f`, its operands may read `x`, they run before the CALL writes it —;
+    `do` / `upscope` hint their last statement; `if` takes the hint as target and hints both branches (folding and jump path; the
+    branch not taken through the shape theorem for hinted compiles `tf_shapeH`).  `Lang/Sem`: the value, then `writeBox` of the
+    box of the binding of `x` visible at the `set` form.  Conclusion `SetOK` (Compile/SeqSet.lean): compile side as `Correct2`; the
+    VM reaches pc + |seg| in the world of `s'` with `r_x` holding the value, every OTHER register allocated at entry unchanged, and
+    the FULL run-time invariant `EnvD` for the new state (register of every name = content of its box after the assignment).
+    Side conditions, exactly what the argument needs: the variable's register lies in the frame (`hmaxx`; `EnvS` does not record
+    "register ≤ max"); the value does not rebind `x` (`hside.1`, `hsame`: `(set x (def x 5))` is excluded); a mutable name's register
+    is held by no other resolvable name at the exit of the value (`MutInj`, `hside.2`: `namelocal` aliases only immutable sources);
+    distinct names have distinct boxes at entry (`BoxInj`; preserved across the value: `tf_boxinj`, proved).  `set` is a STATEMENT
+    theorem: it is not a constructor of the fragment, because across a `set` two clauses of `Correct2` are false ("every register
+    allocated at entry keeps its content", "the box store is prefix-stable") — see `compile_correct_partial`. -/
+theorem compile_correct_set (p : Program) (f0 : Frame) (rest : List Frame) (V : Array Value) (P : List JanetModel.Emit.KConst)
+    (hP : P.length < 65536)
+    (hK : ∀ i, i < P.length → (p.defs.getD f0.defIdx default).consts.getD i .nil = litOf V (P.getD i .nil))
+    (FF : FloatFacts) (G : String → Prop) (b : Bool)
+    (fuel : Nat) (x : String) (ve : Expr) (pp : Pos) (opts : Fopts) (c c' : CState) (slot : JSlot) (sc : Scope) (rs : List Scope)
+    (pool : List JanetModel.Emit.KConst) (ps : List (List JanetModel.Emit.KConst)) (n : Nat) (cur : Pos) (env env' : Env) (s s' : SS) (v : Value)
+    (ht : opts.tail = false) (hh : opts.hint = none)
+    (hs : c.scopes = sc :: rs) (hp : c.pools = pool :: ps) (hl : c.lim ≤ 240) (htop : sc.top = false)
+    (hm : c.map.length = c.buf.length) (hTv : TF G b ve)
+    (hcomp : cValue (fuel + 1) opts (.form [.sym "set", .sym x, ve] pp) c = some (slot, c'))
+    (hsem : eval n cur env (.form [.sym "set", .sym x, ve] pp) s = .ok (v, env') s')
+    (henv : EnvS G c.scopes env s.boxes.size sc.ra)
+    (hmaxx : ∀ dest rx u l, lk c.scopes x = some (dest, u, l) → dest.k = .loc rx → rx ≤ sc.ra.max)
+    (hside : ∀ (q : Pos) (dest r : JSlot) (c2 : CState), cValue fuel { hint := some dest } ve { c with cur := q } = some (r, c2) →
+      (∀ u l, lk c.scopes x = some (dest, u, l) → ∃ u2 l2, lk c2.scopes x = some (dest, u2, l2)) ∧ MutInj c2.scopes)
+    (hsame : ∀ a, lookupEnv env x = some a → lookupEnv env' x = some a)
+    (hbi : BoxInj env s.boxes.size) :
+    ∃ rx, SetOK p f0 rest V P G c c' slot rx sc rs pool ps env env' s s' v :=
+  set_correct p f0 rest V P G b fuel
+    (tf_hint_correct_b p f0 rest V P hP hK FF G b b (tf_correct_b p f0 rest V P hP hK FF G b) fuel)
+    x ve pp hTv opts c c' slot sc rs pool ps n cur env env' s s' v ht hh hs hp hl htop hm hcomp hsem henv hmaxx hside hsame
+    (fun n2 pos s1 he => (tf_boxinj G b n2 pos env env' ve s s1 v henv.gfree hbi hTv he).1)
+
 /-- **`var` declarations**: `(var x e)` with `e` in the fragment `TF G b`, in a local scope, value used or dropped (no hint).
     `janetc_var` = the value, then `namelocal` with the MUTABLE flag: never an alias — always a fresh register and a copy — and the new
     name's slot is flagged mutable; `Lang/Sem` binds a fresh box, as for `def`.  Conclusion `Correct2 … false …` (value in the result
@@ -995,16 +1037,15 @@ example : ({ tail := true } : Fopts).tail = true ∧ ({ tail := true } : Fopts).
     `compile_correct_if` (`if`, jump path), `compile_correct_tail_calls` (a call in tail position: TAILCALL, the next VM step is
     the return of the value), `compile_correct_call_error` / `compile_correct_error` (a raising core function, anywhere inside a form of the
     fragment: same error value at the same position, same effects), `compile_correct_tail` (every form in tail position),
-    `compile_correct_fn_body` (a function body), `compile_correct_var` (`var` declarations).
+    `compile_correct_fn_body` / `compile_correct_thunk` / `compile_correct_fn_params` (function bodies and their funcdefs),
+    `compile_correct_var`, `compile_correct_set` (the `set` statement), `compile_correct_while`, `compile_correct_block_loops`.
     Missing, exactly: (1) calls whose callee is a closure or a computed head (needs closures in the VM relation); (2) `if` whose
     condition is a `do` / `upscope` / `def` form (its slot can be a constant whose value is known only through the run: needs a
-    constant-value induction); `var` / `set` (a register that is written: the frame clause "every register
-    allocated at entry keeps its content" and the prefix-stability of the boxes become false and must be restated relative to the
-    mutable names a form reaches; the invariant needs injectivity of mutable names' registers — `(def y x)` aliases only immutable
-    locals — and of boxes; the induction hypothesis must be generalised to a compile with a HINT slot, since `set` compiles its
-    value with the variable as hint and calls / `if` then write the variable's register directly; with `set` in the fragment the
-    n-ary call needs the side condition that no operand is a variable a later operand sets: janet reads operand registers when
-    the call is made), destructuring `def`, `break` and nested loops (`.brk` is a third outcome of every form: an induction like the error outcome;
+    constant-value induction); `set` as a CONSTRUCTOR of the fragment (the statement `(set x e)` itself is proved: `compile_correct_set`): across a `set` the
+    frame clause "every register allocated at entry keeps its content" and the prefix-stability of the boxes are false and must be
+    restated relative to the mutable names a form reaches; the invariant needs injectivity of mutable names' registers and of
+    boxes carried by `EnvS` (now side conditions); with `set` inside operands the n-ary call needs the side condition that no
+    operand is a variable a later operand sets (janet reads operand registers when the call is made); loops whose body assigns, destructuring `def`, `break` and nested loops (`.brk` is a third outcome of every form: an induction like the error outcome;
     a single `while` without `break` over the fragment is `compile_correct_while`), `fn`: closure CREATION and calls of closures (heap relation between `Lang/Sem`'s lambdas and the VM's closure objects), the
     self name, `&`-parameters, upvalues (`janetc_popscope`'s `keep` reservations are modelled and compared word for word, not
     proved) — what a function's funcdef computes is proved (`compile_correct_thunk`, `compile_correct_fn_params`); (3) the
